@@ -32,6 +32,12 @@ func c08DeadlineInit(c *Ctx) *RuleResult {
 		}
 		r.bad(c.Prop, construct, posOf(p, kv), "the initial value is not the current time")
 	}
+	for _, w := range FieldWrites(p.UnitsIn(builderPkg), next, false) {
+		if w.Unit.Decl.Recv == nil && w.RHS != nil {
+			n++
+			r.ok(constructOf(w.Unit, "nextSynchronizationAt initialised"), posOf(p, w.Node), "assigned in the constructor")
+		}
+	}
 	if n == 0 {
 		r.bad(c.Prop, "builder.BuildClient|nextSynchronizationAt initialised", "-", "no constructor initialises nextSynchronizationAt: until the first successful synchronisation the shutdown deadline is the zero time plus a minute, so a worker that is shut down after a failed first synchronisation terminates at once although it may have been handed an action")
 	}
@@ -331,6 +337,9 @@ func c11Transitions(c *Ctx) *RuleResult {
 		f := p.LookupField("pkg/clock", "SuspendableClock", fname)
 		for _, w := range FieldWrites(units, f, false) {
 			u := w.Unit
+			if u.Decl.Recv == nil {
+				continue // a constructor filling in the object it is about to return
+			}
 			info := u.Info()
 			construct := constructOf(u, "write "+fname)
 			okG := false
